@@ -155,7 +155,11 @@ def strip_mdc(msg_bytes):
 def shape_of(msg_bytes, drop_mdc=False):
     """Reference-peer description of an (unencrypted) message export for comparisons."""
     if drop_mdc:
-        msg_bytes = strip_mdc(msg_bytes)
+        try:
+            msg_bytes = strip_mdc(msg_bytes)
+        except Exception as e:          # a "decrypted" message that is not even a packet sequence
+            return {'errors': ['framing: %s' % e], 'compression': None, 'fmt': None, 'filename': None, 'mtime': None,
+                    'data': None, 'sigs': [], 'nops': 0}
     sh = renc.recognise(msg_bytes)
     lit = sh.literal
     return {'errors': list(sh.errors), 'compression': sh.compression if sh.kind == 'compressed' else None,
